@@ -52,6 +52,13 @@ class DnaSymClone(Contract):
       return args[0]
     policy.contracts['pyglove.core.symbolic.base:Symbolic.rebind'] = rebind
 
+    def clone_value(interp, frame, args, kwargs):
+      a = [interp.resolve(x) for x in args]
+      r = SAny('deep_copy_of_a_retained_value')
+      interp.path.event('value-clone', 'symbolic.clone', (a[0], kwargs.get('deep', a[1] if len(a) > 1 else False), r))
+      return r
+    policy.contracts['pyglove.core.symbolic.base:clone'] = clone_value
+
     def seal(interp, frame, args, kwargs):
       a = [interp.resolve(x) for x in args]
       interp.path.event('seal', 'seal', (a[0], a[1] if len(a) > 1 else kwargs.get('sealed', True)))
@@ -74,8 +81,16 @@ class DnaSymClone(Contract):
       return False
     md = r[0].data[1].get('metadata')
     s = interp.resolve(env['self'])
-    return isinstance(md, dict) and list(md.keys()) == ['m_cloneable'] \
-        and md['m_cloneable'] is s.fields['metadata']['m_cloneable']
+    if not (isinstance(md, dict) and list(md.keys()) == ['m_cloneable']):
+      return False
+    kept, orig = interp.resolve(md['m_cloneable']), s.fields['metadata']['m_cloneable']
+    # a shallow clone shares the retained value; a deep clone holds a deep copy of it
+    copies = [e for e in events if e.kind == 'value-clone']
+    deep = interp.truth_z(env['deep'])
+    deep = z3.BoolVal(deep) if isinstance(deep, bool) else deep
+    shallow_ok = kept is orig and not copies
+    deep_ok = (len(copies) == 1 and copies[0].data[0] is orig and copies[0].data[1] is True and kept is copies[0].data[2])
+    return z3.If(deep, z3.BoolVal(deep_ok), z3.BoolVal(shallow_ok))
 
   def trace_original_untouched(self, events, outcome, interp, env):
     s = interp.resolve(env['self'])
